@@ -18,6 +18,10 @@ CHECKS = {
 }
 
 CHECKS.update({
+ "C04": dict(
+  technique="property-based testing (Hypothesis): pointwise finite-difference, locality and cutoff-law oracles over generated models and feature arrays",
+  text="Synthetic mapped models (1-3 kernels sharing buffers, every evaluator kind, SEP/NPOL/POL, every native baseline code and every libxc code incl. SS_/OS_, MappedXC and MappedXC2) on generated nspin x N0 x (1-12 samples) feature arrays: the returned derivative equals the sample-by-sample finite difference of the returned energy density in every feature row of every spin channel (and vrho_tuple in rho, sigma, tau for MappedXC2); perturbing one sample leaves all others bit-identical; for every rhocut samples below the cutoff are exactly zero in energy and derivative and samples above are bit-identical to rhocut=0; each baseline code separately against finite differences in all three spin modes.",
+  note="Feature rows for the semilocal part come from the real SemilocalPlan; FD resolves relative errors >= 1e-6; kinks (alpha clip, Chachiyo small-s branch) are handled by the two-step FD agreement rule."),
  "C05": dict(
   technique="property-based testing (Hypothesis): adjointness dot tests and dense transpose probing over generated layouts",
   text="For every forward/backward pair of the nonlocal-feature pipeline, in isolation: <Ax,y> = <x,By> on random and one-hot vectors at 1e-12 of the size of the summed terms, and dense A vs B^T entrywise for small layouts, over synthetic and real (PySCF-derived) AtomicGridsIndexer / ATCBasis / ConvolutionCollection(K) / interpolator layouts, coefficient orders, offsets/strides accepted by the wrappers, thread counts 1/3/16; overwrite/accumulate contracts of output buffers; the composite convolution with a conditioning-scaled bound reported separately; an s-only (lmax=0) stratum under ASan.",
